@@ -83,4 +83,16 @@ MUTANTS = [
     ("C01", "ctor-npol1-from-2rows-takes-row1", T, "                if n_pol == 1:\n                    signal = signal[0]\n                    if noise is not None:\n                        noise = noise[0]\n        \n        self.n_pol = n_pol", "                if n_pol == 1:\n                    signal = signal[0]\n                    if noise is not None:\n                        noise = noise[1]\n        \n        self.n_pol = n_pol"),
     ("C01", "copy-shares-noise", T, "        if n is None: \n            n = self.len()\n        return self[:n]", "        if n is None: \n            n = self.len()\n        r = self[:n]\n        if r.noise is not None and n == self.len(): r.noise = self.noise\n        return r"),
     ("C01", "call-drops-npol-noise", T, "        if self.noise is None:\n            return self.__class__(signal)\n        return self.__class__(signal, noise)", "        if self.noise is None or (shift and domain == 't'):\n            return self.__class__(signal)\n        return self.__class__(signal, noise)"),
+    # ---- C06
+    ("C06", "mzm-noise-abs-h", D, "        output.noise = output.noise * h_t\n", "        output.noise = output.noise * np.abs(h_t)\n"),
+    ("C06", "mzm-pol-blank-signal-only", D, "    if pol == \"x\" and output.n_pol == 2:\n        output.signal[1] = 0\n        if output.noise is not None:\n            output.noise[1] = 0", "    if pol == \"x\" and output.n_pol == 2:\n        output.signal[1] = 0\n        if output.noise is not None:\n            output.noise[1] = output.noise[1]"),
+    ("C06", "pm-noise-sign", D, "        output.noise = op_input.noise * np.exp(1j * el_input * pi / Vpi)", "        output.noise = op_input.noise * np.exp(-1j * el_input * pi / Vpi)"),
+    ("C06", "mzm-ignores-noise-2pol", D, "    if output.noise is not None:\n        output.noise = output.noise * h_t\n", "    if output.noise is not None and output.n_pol == 1:\n        output.noise = output.noise * h_t\n"),
+    ("C06", "pm-noise-sum-zero-dropped", D, "    if op_input.noise is not None:\n        output.noise = op_input.noise * np.exp(1j", "    if np.sum(op_input.noise):\n        output.noise = op_input.noise * np.exp(1j"),
+    ("C06", "mzm-bias-half", D, "    g_t = pi / 2 / Vpi * (el_input.signal + bias)", "    g_t = pi / 2 / Vpi * (el_input.signal + (bias if abs(bias) < 1.5 * Vpi else bias / 2))"),
+    ("C06", "laser-df-sign", D, "        op_output = op_output * np.exp(1j * 2*pi*df * t)", "        op_output = op_output * np.exp(-1j * 2*pi*df * t)"),
+    ("C06", "laser-phase-noise-amplitude", D, "        op_output = op_output * np.exp( 1j * phase_noise ) ", "        op_output = op_output * np.exp( 1j * phase_noise ) * (1 + 0.001*np.tanh(phase_noise))"),
+    ("C06", "pm-vpi-2", D, "    output.signal = op_input.signal * np.exp(1j * el_input * pi / Vpi)", "    output.signal = op_input.signal * np.exp(1j * el_input * pi / Vpi * (1 if Vpi < 9 else 0.5))"),
+    ("C06", "mzm-list-drive-int-cast", D, "    if not isinstance(el_input, electrical_signal):\n        el_input = electrical_signal(el_input)\n\n    if op_input.len() != el_input.len() and el_input.len() != 1:", "    if not isinstance(el_input, electrical_signal):\n        el_input = electrical_signal(np.round(el_input, 6) if isinstance(el_input, list) else el_input)\n\n    if op_input.len() != el_input.len() and el_input.len() != 1:"),
+    ("C06", "mzm-er-power", D, "    eta = 2 * idb(-ER_dB) ** 0.5  # arms desbalance factor", "    eta = 2 * idb(-ER_dB) ** (0.5 if ER_dB < 45 else 0.45)  # arms desbalance factor"),
 ]
